@@ -265,12 +265,26 @@ func copyFields(fields []*indexedField) []*indexedField {
 }
 
 func (in *objIndex) control() error {
-	for fn := range in.Fields {
-		if !in.Fields[fn].Control() {
+	// two object ids must not refer to the same object
+	if len(in.uuids) != len(in.ObjectIds) {
+		return fmt.Errorf("index and uuids must have the same size, len(index)=%d len(uuids)=%d", in.len(), len(in.uuids))
+	}
+	for fn, fi := range in.Fields {
+		if !fi.Control() {
 			return fmt.Errorf("field index %s is not ordered", fn)
 		}
-		if in.Fields[fn].Len() != in.len() {
-			return fmt.Errorf("index and fields index must have the same size, len(index)=%d len(index[%s])=%d", in.len(), fn, in.Fields[fn].Len())
+		if fi.Len() != in.len() {
+			return fmt.Errorf("index and fields index must have the same size, len(index)=%d len(index[%s])=%d", in.len(), fn, fi.Len())
+		}
+		// every object must have one and only one entry in every field index
+		// otherwise updating or deleting it makes the field index panic
+		if len(fi.objectIds) != fi.Len() {
+			return fmt.Errorf("field index %s must have the same size as its object ids, several entries for the same object", fn)
+		}
+		for _, f := range fi.Index {
+			if _, ok := in.ObjectIds[f.ObjectId]; !ok {
+				return fmt.Errorf("field index %s must have the same size as index, unknown object id %d", fn, f.ObjectId)
+			}
 		}
 	}
 	return nil
